@@ -78,3 +78,21 @@ claim("C02",
       "on real runs of all 22 optimizers under constraints: objective arguments, search_data, best_para feasible and every emitted position preceded by a positive constraint check.",
       "Partial: that each optimizer's iterate emits only after a positive check is established per run from the constraint log, not by a theorem per optimizer.",
       "Lean 4 proof (Initializer model) + differential correspondence + monitor on all optimizers", "DESIGN.md section 5, C02")
+claim("C10",
+      "GFO.C10.warm_in_init_list (a feasible warm-start dictionary, any key order, is in init_positions_l for every initialize mix), init_list_evaluated (through the real driver model a fresh optimizer evaluates its list of initial positions in order in the first n_inits steps, for any iterate/evaluate), "
+      "deal_order (split deals round-robin: trial t of a population is L[t], no member is asked for more than dealt). Function-level correspondence of Initializer and split; on real runs of all 22 optimizers every feasible in-space warm-start point is among the first n_inits rows, best_score >= objective(w), chained runs never get worse.",
+      "That a population member's own Initializer keeps a dealt (feasible) position is covered by C02's initializer theorems + the monitor; best_score >= objective(w) is C05.",
+      "Lean 4 proof (Initializer model; invariant through the driver carrying backend steps; round-robin dealing lemma) + differential correspondence + monitor", "DESIGN.md section 5, C10")
+claim("C15",
+      "Driver: nan is never best_score and the reported best dominates every non-nan score (so -inf only if nothing better), no step is lost whatever the scores (GFO.C15.nan_never_best_neginf_only_if_nothing_better, nonfinite_loses_no_step). "
+      "Tracker: valid_lists_exact / scores_valid_finite - the valid lists are exactly the finite-scored evaluations for every evaluate of the model. "
+      "Monitor: EXHAUSTIVE over all non-finite masks on the first k objective calls x {nan, +inf, -inf, mixture} for all 22 optimizers (k=6/4 quick, 10/8 thorough); tracker replay under non-finite objectives. "
+      "Seven construction sites that need a finite score during initialisation raise (DownhillSimplex x3, Powell, PatternSearch, Lipschitz, Forest): recorded in known_findings.json, printed as KNOWN-FINDING.",
+      "Partial: the construction sites reading the valid lists (simplex, Powell, pattern, Lipschitz bound, forest/Bayes training) are not modelled - monitor only; sklearn's reaction to degenerate training data is an oracle.",
+      "Lean 4 proof (driver + tracker) + exhaustive fault enumeration over non-finite masks", "DESIGN.md section 5, C15")
+claim("C19",
+      "GFO.C19.grounded_*: for evaluate_init and every evaluate of the tracker model (plain, hill climbing, stochastic with any acceptance decision, spiral) the tracked best and current pairs are (None,-inf) or members of the log of (pos_new, score) pairs and the valid lists hold log entries; best_monotone_hc, greedy_current_monotone. "
+      "Backend-level correspondence: every evaluate/evaluate_init call of every modelled tracking object (optimizer, particles, individuals, spirals, tempering systems, inner grid) of real runs is replayed on the model and all tracked pairs compared. "
+      "Monitor on all 22 optimizers and all sub-optimizers after every step: tracked pairs are really evaluated pairs, best never decreases, greedy current never decreases. Known finding: PowellsMethod's inner 1-D climber.",
+      "Partial: trackers of DownhillSimplex/Powell/Pattern/Direct/SMBO-level objects are monitored, not modelled; the link log entry = evaluated pair is established per run.",
+      "Lean 4 proof (tracker invariant) + differential correspondence of tracker operations + monitor", "DESIGN.md section 5, C19")
